@@ -401,6 +401,46 @@ def monotone_table_nonneg(goal, pc):
     return None
 
 
+# struct field -> the collection it holds is never empty: established at every construction site and preserved by every
+# mutation (rules TINV-EST / TINV-KEEP of C20 decide both; the field name must be unique among the crate's structs)
+NONEMPTY_FIELDS = {'min_distance': 'arrival::curve::Curve'}
+
+
+def type_invariant_facts(terms):
+    """facts  len(x.f) >= 1  for the non-empty fields mentioned in the terms"""
+    out = []
+    for t in terms:
+        for y in T.subterms(t):
+            if isinstance(y, tuple) and len(y) == 2 and y[0] == 'len' and isinstance(y[1], tuple) and len(y[1]) == 3 and y[1][0] == 'f' \
+                    and y[1][2] in NONEMPTY_FIELDS:
+                f = T.le0(T.sub(T.const(1), T.root(y)))
+                if f not in out and f != T.TRUE:
+                    out.append(f)
+    return out
+
+
+def _by_cases(goal, pc):
+    """a goal with conditionals / min / max: every case on its own, under the case's guards"""
+    from . import linarith as LA
+    try:
+        sg = LA.split(T.as_lin(goal))
+    except Exception:
+        return None
+    if not sg or len(sg) < 2 or len(sg) > 8:
+        return None
+    why = []
+    for guards, v in sg:
+        pc2 = tuple(pc) + tuple(T.le0(x) for x in guards)
+        if LA.infeasible([T.as_lin(x) for c in pc2 for x in ((LA._conds(c) or [[]])[0] if LA._conds(c) is not None and len(LA._conds(c)) == 1 else [])]):
+            continue
+        r = implies_nonneg(v, pc2) or monotone_table_nonneg(v, pc2) or la_nonneg(v, pc2)
+        if r is None:
+            return None
+        if r not in why:
+            why.append(r)
+    return 'case by case: ' + ' / '.join(why) if why else None
+
+
 def discharge(s):
     """-> reason string if the site is discharged by its path condition, else None"""
     k = s['kind']
@@ -409,12 +449,23 @@ def discharge(s):
         rs = []
         for g in goals:
             r = implies_nonneg(g, s['pc']) or (monotone_table_nonneg(g, s['pc']) if k == 'sub' else None) or la_nonneg(g, s['pc'])
+            if r is None and k == 'sub':
+                r = _by_cases(g, s['pc'])
+            if r is None:
+                inv = type_invariant_facts([g] + list(s['pc']))
+                pc2 = tuple(s['pc']) + tuple(inv)
+                r = (implies_nonneg(g, pc2) or la_nonneg(g, pc2)) if inv else None
+                if r is not None:
+                    r += ' with the type invariant that ' + ', '.join(sorted({y[1][2] for t in [g] for y in T.subterms(t) if isinstance(y, tuple) and len(y) == 2 and y[0] == 'len' and isinstance(y[1], tuple) and len(y[1]) == 3 and y[1][0] == 'f' and y[1][2] in NONEMPTY_FIELDS})) + ' is never empty (TINV)'
             if r is None:
                 return None
             rs.append(r)
         return '; '.join(rs)
     if k == 'unwrap':
         arg = s['arg']
+        if isinstance(arg, tuple) and len(arg) == 2 and arg[0] in ('last', 'first') and isinstance(arg[1], tuple) and len(arg[1]) == 3 \
+                and arg[1][0] == 'f' and arg[1][2] in NONEMPTY_FIELDS:
+            return f'{arg[0]}() of {arg[1][2]}, which is never empty (type invariant, TINV)'
         for c in s['pc']:
             if c == ('matches', arg, 'Ok') or c == ('matches', arg, 'Some'):
                 return 'dominated by an is_err/is_some test'
